@@ -195,6 +195,16 @@ pub fn configs(prop: &str, thorough: bool) -> Vec<SimConfig> {
                 });
                 v.push(c);
             }
+            if prop == "C03" || prop == "C19" || prop == "C04" {
+                // mixed H1/H2 histories with completed exchanges (macro step) so that hand-backs during
+                // an in-flight HTTP/2 attempt, followed by its failure or cancellation, are within reach
+                for preempt in [true, false] {
+                    let mut c = full(&format!("n3-macro-preempt-{preempt}"), 3, preempt);
+                    c.macro_finish = true;
+                    c.max_depth = Some(if thorough { 16 } else { 13 });
+                    v.push(c);
+                }
+            }
             if thorough {
                 for preempt in [true, false] {
                     let mut c = full(&format!("n3-full-preempt-{preempt}"), 3, preempt);
